@@ -407,7 +407,12 @@ if BASE_CURRENCY is not None:
         sym = c.name if c.symbol in SYMBOL_TO_UNIT else c.symbol
         if sym in SPECIAL_NAMES:
             name = SPECIAL_NAMES[sym]
+        if name in NAME_TO_UNIT or name + "s" in NAME_TO_UNIT or sym in SYMBOL_TO_UNIT:
+            # Still clashes with something that is registered already.
+            continue
         register_unit(sym, name, "cash", CASH, multiple=mul)
         if sym in SPECIAL_CURRENCY_SYMBOLS:
             special_sym = SPECIAL_CURRENCY_SYMBOLS[sym]
+            if special_sym in NAME_TO_UNIT or special_sym + "s" in NAME_TO_UNIT or special_sym in SYMBOL_TO_UNIT:
+                continue
             register_unit(special_sym, special_sym, "cash", CASH, multiple=mul)
